@@ -102,6 +102,9 @@ type c05Res struct {
 	class    string
 	errText  string
 	lateSend bool // a backend call after Send returned
+	shut      bool   // the exporter was shut down during the first request
+	attempts2 int    // attempts of the second request (sent after shutdown, always failing transiently)
+	class2    string // how its Send ended
 	returned bool
 }
 
@@ -142,6 +145,11 @@ func c05Body(cfg c05Cfg, maxAttempts int, res *c05Res) func() {
 				res.lateSend = true
 			}
 			req := r.(*c05Req)
+			if len(req.items) == 1 && req.items[0] == 9 {
+				// the second request, sent after the exporter was shut down: it always fails transiently
+				res.attempts2++
+				return errors.New("transient")
+			}
 			res.attempts = append(res.attempts, c05Attempt{vs.Now().Sub(t0), fmt.Sprint(req.items)})
 			o := "ok"
 			if len(res.attempts) < maxAttempts {
@@ -207,8 +215,15 @@ func c05Body(cfg c05Cfg, maxAttempts int, res *c05Res) func() {
 					vs.FireNext()
 				case "shutdown":
 					_ = be.Shutdown(context.Background())
-					vs.Block(func() bool { return finished })
-					return
+					res.shut = true
+					// from here on every wait simply runs out (a correct retry sender does not wait at all any more)
+					for {
+						vs.Block(func() bool { return vs.PendingTimer() || finished })
+						if finished {
+							return
+						}
+						vs.FireNext()
+					}
 				case "cancel":
 					ctx.end(context.Canceled)
 					vs.Block(func() bool { return finished })
@@ -221,6 +236,14 @@ func c05Body(cfg c05Cfg, maxAttempts int, res *c05Res) func() {
 		res.class = c05Classify(serr)
 		if serr != nil {
 			res.errText = serr.Error()
+		}
+		if res.shut {
+			// "retried if and only if ... the exporter is not shutting down": shutdown is a state, not an event - a request that
+			// fails AFTER it must not be retried either, and ends with a shutdown-classified error
+			res.returned = false
+			serr2 := be.Send(context.Background(), &c05Req{[]int{9}})
+			res.returned = true
+			res.class2 = c05Classify(serr2)
 		}
 		finished = true
 	}
@@ -349,6 +372,15 @@ func c05Verdict(cfg c05Cfg, res *c05Res, s *vs.Sched) (string, string) {
 			kind = kind[:i]
 		}
 		return "model-disagreement:" + kind, fmt.Sprintf("%s | config=%+v outcomes=%v wakes=%v delays=%v attempts=%v final=%s", d, cfg, res.outs, res.wakes, res.delays, res.attempts, res.class)
+	}
+	if res.shut {
+		want := "shutdown"
+		if !cfg.Enabled {
+			want = "other" // retrying is disabled: the failure is returned as it is
+		}
+		if res.attempts2 != 1 || res.class2 != want {
+			return "retried-after-shutdown", fmt.Sprintf("config=%+v: a request sent after the exporter was shut down (always failing transiently) was attempted %d times and ended as %q; expected 1 attempt and %q", cfg, res.attempts2, res.class2, want)
+		}
 	}
 	return "", ""
 }
